@@ -27,6 +27,69 @@ enum Alias {
 }
 
 impl<'w> Ctx<'w> {
+    /// `let mut v = &mut PLACE.as_mut_slice()[LO..];` or `let mut v = PLACE.as_mut_slice();` over a list of structs
+    fn view_let(&self, l: &syn::Local) -> Option<(String, Place, String)> {
+        let name = match &l.pat { Pat::Ident(i) if i.mutability.is_some() => i.ident.to_string(), _ => return None };
+        let init = l.init.as_ref()?;
+        let txt = init.expr.to_token_stream().to_string().replace(' ', "");
+        let (ptxt, lo) = if let Some(rest) = txt.strip_prefix("&mut") {
+            let pos = rest.find(".as_mut_slice()[")?;
+            let lo = rest[pos + ".as_mut_slice()[".len()..].strip_suffix("..]")?;
+            if !lo.chars().all(|c| c.is_ascii_digit()) { return None; }
+            (rest[..pos].to_string(), lo.to_string())
+        } else {
+            (txt.strip_suffix(".as_mut_slice()")?.to_string(), "0".to_string())
+        };
+        let pe: Expr = syn::parse_str(&ptxt).ok()?;
+        let place = self.place_of(&pe)?;
+        match self.resolve(&place.ty) { Ty::List(t) if matches!(*t, Ty::Named(_)) => Some((name, place, lo)), _ => None }
+    }
+
+    /// `while let Some((last, head)) = v.split_last_mut() { …; v = head; }` with `v` a recorded view
+    fn split_last_loop(&self, w: &syn::ExprWhile) -> Option<(String, String, String)> {
+        let l = match &*w.cond { Expr::Let(l) => l, _ => return None };
+        let view = match &*l.expr {
+            Expr::MethodCall(m) if m.method == "split_last_mut" && m.args.is_empty() => match &*m.receiver {
+                Expr::Path(p) if p.path.segments.len() == 1 => p.path.segments[0].ident.to_string(),
+                _ => return None,
+            },
+            _ => return None,
+        };
+        if !self.views.contains_key(&view) { return None; }
+        let ptxt = l.pat.to_token_stream().to_string().replace(' ', "");
+        let inner = ptxt.strip_prefix("Some((")?.strip_suffix("))")?;
+        let (last, head) = inner.split_once(',')?;
+        let ident = |s: &str| !s.is_empty() && s.chars().all(|c| c.is_alphanumeric() || c == '_');
+        if !ident(last) || !ident(head) { return None; }
+        // the body must end with `v = head;` and use `v` nowhere else
+        let tail = w.body.stmts.last()?.to_token_stream().to_string().replace(' ', "");
+        if tail != format!("{}={};", view, head) { return None; }
+        let body_txt: String = w.body.stmts[..w.body.stmts.len() - 1].iter().map(|s| s.to_token_stream().to_string()).collect::<Vec<_>>().join(" ");
+        let uses_view = body_txt.split(|c: char| !(c.is_alphanumeric() || c == '_')).any(|t| t == view);
+        if uses_view { return None; }
+        Some((view, last.to_string(), head.to_string()))
+    }
+
+    /// `if let Some(x) = LIST.last_mut() { .. }` (no else) over struct elements, `LIST` a place or a `split_last_mut` head:
+    /// (x, the list place, the Lean guard, the Lean index of the element)
+    fn last_mut_elem(&self, i: &ExprIf) -> Option<(String, Place, String, String)> {
+        if i.else_branch.is_some() { return None; }
+        let l = match &*i.cond { Expr::Let(l) => l, _ => return None };
+        let m = match &*l.expr { Expr::MethodCall(m) if m.method == "last_mut" && m.args.is_empty() => m, _ => return None };
+        let ptxt = l.pat.to_token_stream().to_string().replace(' ', "");
+        let x = ptxt.strip_prefix("Some(")?.strip_suffix(")")?.to_string();
+        if x.is_empty() || !x.chars().all(|c| c.is_alphanumeric() || c == '_') { return None; }
+        if let Expr::Path(p) = strip_ref(&m.receiver) {
+            if let Some((place, lo, hi)) = self.heads.get(&path_str(&p.path)).cloned() {
+                return Some((x, place, format!("decide ({} < {})", lo, hi), format!("{} - 1", hi)));
+            }
+        }
+        let place = self.place_of(&m.receiver)?;
+        match self.resolve(&place.ty) { Ty::List(t) if matches!(*t, Ty::Named(_)) => {}, _ => return None }
+        let cur = self.place_read(&place);
+        Some((x, place, format!("decide (0 < {}.length)", cur), format!("{}.length - 1", cur)))
+    }
+
     fn ret_pack(&self, val: Option<&str>) -> String {
         let mut parts: Vec<String> = vec![];
         if self.ret_ty != Ty::Unit {
@@ -134,6 +197,15 @@ impl<'w> Ctx<'w> {
                     let ln = self.bind(nm, ty.clone());
                     out.push(format!("{}let {} : {} := {}", ind(n), ln, lt, proj));
                 }
+                Ok(())
+            }
+            Stmt::Local(l) if self.view_let(l).is_some() => {
+                // `let mut v = &mut place.as_mut_slice()[lo..];` — consumed by the `while let … split_last_mut()` after it
+                let (name, place, lo) = self.view_let(l).unwrap();
+                let cur = self.place_read(&place);
+                // slicing `[lo..]` panics when `lo` is past the end
+                out.push(format!("{}let _ ← sliceFrom {} {}", ind(n), cur, lo));
+                self.views.insert(name, (place, lo));
                 Ok(())
             }
             Stmt::Local(l) => {
@@ -315,6 +387,30 @@ impl<'w> Ctx<'w> {
                 self.loop_fin.pop();
                 self.vars.pop();
                 out.extend(body?);
+                Ok(())
+            }
+            Expr::While(w) if self.split_last_loop(w).is_some() => {
+                // while let Some((last, head)) = v.split_last_mut() { body; v = head; }
+                //   ==>  for j in (indices lo .. len of the place).reverse: last = place[j], head = place[lo..j]
+                let (view, last, head) = self.split_last_loop(w).unwrap();
+                let (place, lo) = self.views.remove(&view).unwrap();
+                let elem_ty = match self.resolve(&place.ty) { Ty::List(t) => *t, o => return Err(format!("split_last_mut on {:?}", o)) };
+                let cur = self.place_read(&place);
+                let j = self.fresh("j");
+                out.push(format!("{}for {} in (List.range' {} ({}.length - {})).reverse do", ind(n), j, lo, cur, lo));
+                let mut lp = place.clone();
+                lp.index = Some(j.clone());
+                lp.ty = elem_ty;
+                self.elems.insert(last.clone(), lp);
+                self.heads.insert(head.clone(), (place.clone(), lo.clone(), j.clone()));
+                let mut body = w.body.clone();
+                body.stmts.pop(); // `v = head;`
+                self.loop_fin.push(None);
+                let r = self.block(&body, n + 1, false, aliases);
+                self.loop_fin.pop();
+                self.elems.remove(&last);
+                self.heads.remove(&head);
+                out.extend(r?);
                 Ok(())
             }
             Expr::While(w) => {
@@ -517,6 +613,19 @@ impl<'w> Ctx<'w> {
     }
 
     fn if_stmt(&mut self, i: &ExprIf, n: usize, tail: bool, aliases: &mut BTreeMap<String, Alias>, out: &mut Vec<String>) -> R<()> {
+        if let Some((x, place, guard, idx)) = self.last_mut_elem(i) {
+            // if let Some(x) = list.last_mut() { A }   with struct elements: x stands for the last element
+            let elem_ty = match self.resolve(&place.ty) { Ty::List(t) => *t, o => return Err(format!("last_mut on {:?}", o)) };
+            out.push(format!("{}if {} then", ind(n), guard));
+            let mut lp = place.clone();
+            lp.index = Some(idx);
+            lp.ty = elem_ty;
+            let shadowed = self.elems.insert(x.clone(), lp);
+            let r = self.block(&i.then_branch, n + 1, false, aliases);
+            match shadowed { Some(o) => { self.elems.insert(x, o); } None => { self.elems.remove(&x); } }
+            out.extend(r?);
+            return Ok(());
+        }
         if let Expr::Let(l) = &*i.cond {
             // if let PAT = e { A } else { B }
             let (scrut, place) = self.scrutinee(&l.expr)?;
@@ -814,7 +923,7 @@ impl World {
         for gp in impl_generics.params.iter().chain(sig.generics.params.iter()) {
             if let GenericParam::Type(tp) = gp {
                 let b = tp.bounds.to_token_stream().to_string();
-                let t = if b.contains("Seek") || b.contains("Read") { Ty::Src } else if b.contains("Write") { Ty::Sink } else { continue };
+                let t = if b.contains("Seek") || b.contains("Read") { Ty::Src } else if b.contains("Write") { Ty::Sink } else if b.replace(' ', "").contains("AsRef<[u8]>") { Ty::Bytes } else { continue };
                 generics.insert(tp.ident.to_string(), t);
             }
         }
@@ -823,13 +932,18 @@ impl World {
                 if let WherePredicate::Type(pt) = p {
                     let b = pt.bounds.to_token_stream().to_string();
                     let n = pt.bounded_ty.to_token_stream().to_string();
-                    let t = if b.contains("Seek") || b.contains("Read") { Ty::Src } else if b.contains("Write") { Ty::Sink } else { continue };
+                    let t = if b.contains("Seek") || b.contains("Read") { Ty::Src } else if b.contains("Write") { Ty::Sink } else if b.replace(' ', "").contains("AsRef<[u8]>") { Ty::Bytes } else { continue };
                     generics.insert(n, t);
                 }
             }
         }
         if let Some(tn) = ty_name {
             generics.insert("Self".into(), Ty::Named(tn.to_string()));
+        }
+        for (k, v) in opts {
+            if v.starts_with('@') {
+                generics.insert(k.clone(), crate::tr::inst_ty(v));
+            }
         }
         // explicit instantiations from the target line (`B=Block`)
         for gp in impl_generics.params.iter().chain(sig.generics.params.iter()) {
@@ -849,7 +963,7 @@ impl World {
         let mut ctx = Ctx {
             w: self, vars: vec![BTreeMap::new()], widths: Rc::new(RefCell::new(vec![])), ivar_parent: Rc::new(RefCell::new(vec![])),
             pre: vec![], ret_ty: Ty::Unit, muts: vec![], generics: generics.clone(), fuel: opts.get("fuel").cloned(),
-            self_ty: ty_name.map(|s| s.to_string()), fresh: 0, val_mode: vec![], mut_pat_binds: vec![], loop_fin: vec![], used_step: false, local_muts: vec![], used_decompress: false, used_wwrite: false, used_wflush: false, used_compress: false, pending_drops: vec![],
+            self_ty: ty_name.map(|s| s.to_string()), fresh: 0, val_mode: vec![], mut_pat_binds: vec![], loop_fin: vec![], used_step: false, local_muts: vec![], used_decompress: false, used_wwrite: false, used_wflush: false, used_compress: false, pending_drops: vec![], elems: BTreeMap::new(), heads: BTreeMap::new(), views: BTreeMap::new(),
         };
         let mut params: Vec<String> = vec![];
         let mut rebinds: Vec<String> = vec![];
